@@ -8,7 +8,7 @@ from ..program import AnalysisError, Program, norm, walk_local, ancestors
 from ..report import Check
 from ..types import Types
 from ..util import calls_in, fkey, is_method_call, node_calls, path_of, recv_of, stores_to_attr, where
-from .mgr import MGR, CORE, Dispatch, self_call, live_follow
+from .mgr import module_writers, MGR, CORE, Dispatch, self_call, live_follow
 from .c14 import conn_error_handlers, catches_conn_error
 from .c19 import module_param
 
@@ -67,6 +67,8 @@ def _fixture_verdict():
     import os
     p = os.path.join(os.path.dirname(os.path.dirname(os.path.dirname(os.path.abspath(__file__)))), "fixtures", "c07_value_keyed_index.py")
     tree = ast.parse(open(p, encoding="utf-8").read())
+    from ..program import _set_parents
+    _set_parents(tree)
     res = {}
     for cls in [n for n in tree.body if isinstance(n, ast.ClassDef)]:
         rmf = next(f for f in cls.body if isinstance(f, ast.FunctionDef) and f.name == "remove_module")
@@ -212,13 +214,12 @@ def run(prog: Program, chk: Check):
                 F.decide(len(n_rm) == 1, fkey(f, f"write-failure:{norm(tsends[0])}"), where(f, h), f"handler removes `{rcp}` exactly once",
                          f"write-failure handler calls remove_module({rcp}) {len(n_rm)} time(s)")
     runf = prog.func(MGR, "MessageManager.run")
-    for c in calls_in(runf.node):
-        if not self_call("read_message")(c):
-            continue
-        t = next((a for a in ancestors(c) if isinstance(a, ast.Try) and any(c in calls_in(st) for st in a.body)), None)
-        hs = [h for h in t.handlers if catches_conn_error(h)] if t is not None else []
-        F.decide(bool(hs) and all(sum(1 for st in h.body for cc in calls_in(st) if is_rm(cc)) == 1 for h in hs), fkey(runf, "read-failure-handler"),
-                 where(runf, c), "ConnectionError on read removes the source module", "run(): ConnectionError on read does not remove the module exactly once")
+    from .mgr import client_read_coverage
+
+    for rf, rc_, hs in client_read_coverage(prog, cg, mm):
+        F.decide(hs is not None and all(sum(1 for st in h.body for cc in calls_in(st) if is_rm(cc)) == 1 for h in hs), fkey(rf, f"read-failure-handler:{norm(rc_)[:40]}"),
+                 where(rf, rc_), "ConnectionError on read removes the source module exactly once", f"{rf.qual}: a ConnectionError from `{norm(rc_)[:50]}` does not remove the module exactly once"
+                 + (" (no covering handler on some call chain)" if hs is None else ""))
         nh += 1
     # (3) DISCONNECT branch
     pm = prog.func(MGR, "MessageManager.process_message")
@@ -355,7 +356,7 @@ def run(prog: Program, chk: Check):
 
     for f in mm.methods.values():
         for c in calls_in(f.node):
-            if not (self_call("forward_message")(c) or self_call("send_to_loggers")(c) or self_call("send_message")(c) or (is_method_call(c, "send_message") and ty.expr(f, recv_of(c)).is_cls("Module"))):
+            if not (self_call("forward_message")(c) or self_call("send_to_loggers")(c) or self_call("send_message")(c) or (is_method_call(c, module_writers(prog)) and ty.expr(f, recv_of(c)).is_cls("Module"))):
                 continue
             for a in c.args:
                 pth = path_of(a)
